@@ -196,6 +196,9 @@ def run(c, prog, ctx):
     c.inst("R2.with-secrets-last", "vbf = last(value, abf, inputs' triples, other outputs' triples); committed with and returned", r == ["std::result::Result::Ok{tuple{%s, %s}}" % (WTS, LAST)], "returns %s" % [x[:300] for x in r], WL.f.where(), WL.f.path)
     from .c09 import check_last
     check_last(c, prog, "R2.last-formula")
+    from .predicates import confidential_views
+    confidential_views(c, prog, "R8.confidential-views")
+    c.floor("R8.confidential-views", 21)
     from .c09 import check_surjection_target
     check_surjection_target(c, prog, "R3.surjection-target")
     VI = Fn(prog, "blind::TxOutSecrets::value_blind_inputs")
